@@ -9,6 +9,7 @@ package main
 import (
 	"bufio"
 	"bytes"
+	"context"
 	"fmt"
 	"os"
 	"os/exec"
@@ -150,7 +151,9 @@ func runHist(self, work, mode string, procs, gor, iters int, seed uint64, initia
 		wg.Add(1)
 		go func(pr int) {
 			defer wg.Done()
-			cmd := exec.Command(self, "helper", "hist", dir, fmt.Sprint(pr), fmt.Sprint(gor), fmt.Sprint(iters), fmt.Sprint(seed), mode)
+			ctx, cancel := context.WithTimeout(context.Background(), workerDeadline)
+			defer cancel()
+			cmd := exec.CommandContext(ctx, self, "helper", "hist", dir, fmt.Sprint(pr), fmt.Sprint(gor), fmt.Sprint(iters), fmt.Sprint(seed), mode)
 			cmd.Stderr = os.Stderr
 			out, e := cmd.Output()
 			mu.Lock()
